@@ -1,6 +1,6 @@
 (* C15 — keep-alive timer requests are consistent and complete.  Statements only; proofs are in
    Conn/Timers.v, Conn/RearmInv.v, Conn/RearmInv2.v and Conn/Expiry.v.  Nothing else may be added to this file. *)
-From MQ Require Import Base.Prelude Conn.Types Conn.ConnRecord Conn.Step Conn.Run Corr.ConnTrace Conn.Timers Conn.RearmInv Conn.RearmInv2 Conn.Expiry.
+From MQ Require Import Base.Prelude Conn.Types Conn.ConnRecord Conn.Step Conn.Run Corr.ConnTrace Conn.Timers Conn.RearmInv Conn.RearmInv2 Conn.Expiry Conn.PairQos Conn.PairPing.
 
 (* For EVERY state and API call: replaying the timer requests of the returned event list over the
    connection's timer flags before the call (after clearing the flag of a timer whose expiry is
@@ -121,6 +121,45 @@ Print Assumptions C15_accepted_packet_rearms.
 
 (* [rearmed] is not vacuous: it rejects a client send that is not followed by the reset, and a reset
    with the wrong interval; it accepts the reset after the last send *)
+(* THE PAIR (Conn/PairPing.v): one keep-alive round between a client endpoint and a server endpoint of either version.
+   The client's PINGREQ timer fires ([do_timer] is what [step … (OTimer …)] runs); the PINGREQ it requests, handed to the
+   server, is answered with PINGRESP by the server itself, which re-arms its receive watchdog; the PINGRESP, handed to the
+   client, cancels the response timer the client armed.  No call reports an error or asks to close, and no response
+   timer is left armed. *)
+Theorem C15_keep_alive_round : forall gs gr cs cr v,
+  v <> VUndet -> c_version cs = v -> c_version cr = v ->
+  status_eqb (c_status cs) Connected = true -> status_eqb (c_status cr) Connected = true -> fits2 cs -> fits2 cr ->
+  role_server_ok gr = true -> c_is_client cr = false -> c_auto_ping cr = true ->
+  exists cs1 e1 cr1 e2 cs2 e3,
+    do_timer cs TPingreqSend = Ok (cs1, e1) /\ sends e1 = [pingreq_pkt v] /\ errors e1 = [] /\ closes e1 = false /\
+    (c_pingresp_recv_to cs <> 0 -> c_t_resp cs1 = true /\ In (ETimerReset TPingrespRecv (c_pingresp_recv_to cs)) e1) /\
+    deliver gr cr (pingreq_pkt v) = Ok (cr1, e2) /\ sends e2 = [pingresp_pkt v] /\ errors e2 = [] /\ closes e2 = false /\
+    (c_pingreq_recv_to cr <> 0 -> c_t_recv cr1 = true /\ In (ETimerReset TPingreqRecv (c_pingreq_recv_to cr)) e2) /\
+    deliver gs cs1 (pingresp_pkt v) = Ok (cs2, e3) /\ sends e3 = [] /\ errors e3 = [] /\ closes e3 = false /\
+    c_t_resp cs2 = false /\ (c_pingresp_recv_to cs <> 0 -> In (ETimerCancel TPingrespRecv) e3).
+Proof. exact keep_alive_round. Qed.
+Print Assumptions C15_keep_alive_round.
+
+(* the round is not vacuous: keep-alive 10 s, PINGRESP timeout 500 ms at the client, 15 s watchdog at the server *)
+Example C15_round_nonvacuous :
+  let gs := mkCfg RClient 65535 2 in
+  let gr := mkCfg RServer 65535 2 in
+  let cs := set_pingresp_recv_to (set_keep_alive_ms (set_is_client (set_status (conn_new gs V50) Connected) true) 10000) 500 in
+  let cr := set_auto_ping (set_pingreq_recv_to (set_status (conn_new gr V50) Connected) 15000) true in
+  status_eqb (c_status cs) Connected = true /\ status_eqb (c_status cr) Connected = true /\ fits2 cs /\ fits2 cr /\
+  role_server_ok gr = true /\ c_is_client cr = false /\ c_auto_ping cr = true /\ c_pingresp_recv_to cs <> 0 /\ c_pingreq_recv_to cr <> 0 /\
+  match do_timer cs TPingreqSend with
+  | Ok (cs1, e1) => c_t_resp cs1 = true /\
+      match deliver gr cr (pingreq_pkt V50) with
+      | Ok (cr1, e2) => c_t_recv cr1 = true /\ sends e2 = [pingresp_pkt V50] /\
+          match deliver gs cs1 (pingresp_pkt V50) with
+          | Ok (cs2, e3) => c_t_resp cs2 = false /\ In (ETimerCancel TPingrespRecv) e3
+          | Panic _ => False end
+      | Panic _ => False end
+  | Panic _ => False
+  end.
+Proof. vm_compute. repeat split; try reflexivity; try discriminate; try (intro H; discriminate H); auto. Qed.
+
 Example C15_rearmed_nonvacuous :
   let p := pingreq_pkt V311 in
   rearmed true 10000 [ESend p None] = false /\
